@@ -131,7 +131,7 @@ Proof. intros Hs A B. apply dead_obs; auto. Qed.
 
 (** Contract.Destroy / Contract.Migrate leave the executing contract dead when tracking is active *)
 Theorem destroy_marks track h a s s' : good s -> is_addr a = true -> track <= h ->
-  exec track h s (CDestroy a) = Ok s' -> good s' /\ dead_now s' a /\ contract_record s' a = [].
+  exec true track h s (CDestroy a) = Ok s' -> good s' /\ dead_now s' a /\ contract_record s' a = [].
 Proof.
   intros G Aa Hh E. cbn [exec] in E. destruct (context_ok s a); [|discriminate].
   apply of_loop_ok in E. destruct E as [_ <-].
@@ -141,10 +141,10 @@ Proof.
 Qed.
 
 Theorem migrate_marks track h cur new code s s' : good s -> cop_wf (CMigrate cur new code) = true -> track <= h ->
-  exec track h s (CMigrate cur new code) = Ok s' -> good s' /\ dead_now s' cur.
+  exec true track h s (CMigrate cur new code) = Ok s' -> good s' /\ dead_now s' cur.
 Proof.
   intros G W Hh E. pose proof (exec_good track h s _ s' G W E) as [G' _]. split; [exact G'|].
-  cbn [exec cop_wf] in *. apply andb_prop in W. destruct W as [W Wc]. apply andb_prop in W. destruct W as [Wcur Wnew].
+  cbn [exec cop_wf negb orb] in *. apply andb_prop in W. destruct W as [W Wc]. apply andb_prop in W. destruct W as [Wcur Wnew].
   destruct (undeployed s new); [|discriminate]. apply of_loop_ok in E. destruct E as [_ <-].
   assert (G1 : good (put_contract new code s)) by (apply good_put; [exact G|reflexivity|apply is_addr_wf; exact Wnew]).
   destruct (migrate_full_spec track h cur new _ G1 Wcur Wnew) as (_ & R2 & _ & R4 & _ & R6).
@@ -157,7 +157,7 @@ Qed.
 Theorem contract_migrate_exact track h cur new code s s' :
   good s -> cop_wf (CMigrate cur new code) = true -> cur <> new ->
   (contract_record s new = [] -> forall sfx, storage_at s new sfx = []) ->
-  exec track h s (CMigrate cur new code) = Ok s' ->
+  exec true track h s (CMigrate cur new code) = Ok s' ->
   (forall sfx, storage_at s' new sfx = storage_at s cur sfx) /\
   (forall sfx, storage_at s' cur sfx = []) /\
   contract_record s' new = code /\ contract_record s' cur = [] /\
@@ -165,7 +165,7 @@ Theorem contract_migrate_exact track h cur new code s s' :
 Proof.
   intros G W Hne O E. pose proof (good_sorted s G) as Hs.
   pose proof (exec_good track h s _ s' G W E) as [G' _]. pose proof (good_sorted _ G') as Hs'.
-  cbn [exec cop_wf] in *. apply andb_prop in W. destruct W as [W Wc]. apply andb_prop in W. destruct W as [Wcur Wnew].
+  cbn [exec cop_wf negb orb] in *. apply andb_prop in W. destruct W as [W Wc]. apply andb_prop in W. destruct W as [Wcur Wnew].
   destruct (undeployed s new) eqn:Un; [|discriminate]. apply of_loop_ok in E. destruct E as [_ <-].
   rewrite undeployed_glk in Un by exact Hs. apply andb_prop in Un. destruct Un as [_ Un].
   assert (Cn : glk s (CK new) = None) by (destruct (glk s (CK new)); [discriminate|reflexivity]).
@@ -201,7 +201,7 @@ Proof. intro G. split; apply deadf_ext; intro x; [symmetry|]; apply glk_reset. Q
 Theorem destroyed_forever track a bs s :
   good s -> is_addr a = true -> forallb block_wf bs = true -> existsb (block_unsets a) bs = false ->
   is_destroyed (next_view s) a = true -> (forall sfx, storage_at (next_view s) a sfx = []) ->
-  let r := run_chain track s bs in
+  let r := run_chain true track s bs in
   good (fst r) /\ dead_now (next_view (fst r)) a /\
   Forall2 (fun b os => Forall2 (fun t o => tx_touches a t = true -> o <> Committed) (b_txs b) os) bs (snd r).
 Proof.
@@ -219,9 +219,9 @@ Qed.
 Theorem dead_refuses track h a s o : good s -> is_addr a = true ->
   is_destroyed s a = true -> (forall sfx, storage_at s a sfx = []) ->
   cop_wf o = true -> cop_unsets a o = false ->
-  (cop_touches a o = true -> exec track h s o = Err Refused) /\
-  (forall code, exec track h s (CCreate a code) = Ok s) /\
-  (forall s', exec track h s o = Ok s' -> good s' /\ dead_now s' a).
+  (cop_touches a o = true -> exec true track h s o = Err Refused) /\
+  (forall code, exec true track h s (CCreate a code) = Ok s) /\
+  (forall s', exec true track h s o = Ok s' -> good s' /\ dead_now s' a).
 Proof.
   intros G Aa D1 D2 W U. pose proof (good_sorted s G) as Hs.
   pose proof (deadf_of s a Hs D1 D2) as D. split; [|split].
@@ -232,7 +232,7 @@ Proof.
 Qed.
 
 Theorem deploy_refused track h a code s : good s -> is_destroyed (next_view s) a = true ->
-  run_tx track h s (TDeploy a code) = (next_view s, Failed).
+  run_tx true track h s (TDeploy a code) = (next_view s, Failed).
 Proof.
   intros G D. unfold run_tx, next_view in *. unfold get_contract. rewrite D. reflexivity.
 Qed.
@@ -240,7 +240,7 @@ Qed.
 Theorem no_orphan_storage track a bs s :
   good s -> is_addr a = true -> forallb block_wf bs = true ->
   (contract_record (next_view s) a = [] -> forall sfx, storage_at (next_view s) a sfx = []) ->
-  let s' := fst (run_chain track s bs) in
+  let s' := fst (run_chain true track s bs) in
   good s' /\ (contract_record (next_view s') a = [] -> forall sfx, storage_at (next_view s') a sfx = []).
 Proof.
   intros G Aa W O s'.
@@ -253,7 +253,7 @@ Qed.
 (** the same invariant inside a transaction *)
 Theorem no_orphan_storage_step track h a s o s' : good s -> is_addr a = true -> cop_wf o = true ->
   (contract_record s a = [] -> forall sfx, storage_at s a sfx = []) ->
-  exec track h s o = Ok s' ->
+  exec true track h s o = Ok s' ->
   (contract_record s' a = [] -> forall sfx, storage_at s' a sfx = []).
 Proof.
   intros G Aa W O E. destruct (exec_good track h s o s' G W E) as [G' _].
@@ -263,14 +263,14 @@ Qed.
 
 (** * a committed transaction that destroys or migrates away [a] leaves [a] dead for the next one *)
 Lemma exec_all_app track h : forall l1 l2 s,
-  exec_all track h s (l1 ++ l2) = match exec_all track h s l1 with Ok s1 => exec_all track h s1 l2 | e => e end.
+  exec_all true track h s (l1 ++ l2) = match exec_all true track h s l1 with Ok s1 => exec_all true track h s1 l2 | e => e end.
 Proof.
   induction l1 as [|o l1 IH]; intros l2 s; simpl; [reflexivity|].
-  destruct (exec track h s o); [apply IH|reflexivity].
+  destruct (exec true track h s o); [apply IH|reflexivity].
 Qed.
 
 Lemma exec_all_good track h : forall ops s s', good s -> forallb cop_wf ops = true ->
-  exec_all track h s ops = Ok s' -> good s'.
+  exec_all true track h s ops = Ok s' -> good s'.
 Proof.
   intros ops s s' G W E.
   apply (exec_all_inv (fun _ => True) (fun _ => true) (fun _ _ _ _ _ _ _ _ _ _ => I) track h ops s s' G W); auto.
@@ -283,16 +283,16 @@ Definition leaves (a : bytes) (o : cop) : Prop :=
 Theorem leaving_tx_commits_dead track h a s pre o post :
   good s -> is_addr a = true -> track <= h -> forallb cop_wf (pre ++ o :: post) = true ->
   leaves a o -> existsb (cop_unsets a) post = false ->
-  let r := run_tx track h s (TInvoke (pre ++ o :: post)) in
+  let r := run_tx true track h s (TInvoke (pre ++ o :: post)) in
   snd r = Committed -> good (fst r) /\ dead_now (next_view (fst r)) a.
 Proof.
   intros G Aa Hh W L U r C. unfold r, run_tx in *. pose proof (good_reset s G) as G0.
   rewrite forallb_app in W. apply andb_prop in W. destruct W as [Wpre W]. simpl in W.
   apply andb_prop in W. destruct W as [Wo Wpost].
-  rewrite exec_all_app in *. destruct (exec_all track h (cache_reset s) pre) as [s1|e1] eqn:E1;
+  rewrite exec_all_app in *. destruct (exec_all true track h (cache_reset s) pre) as [s1|e1] eqn:E1;
     [|destruct e1; discriminate].
   pose proof (exec_all_good track h pre _ s1 G0 Wpre E1) as G1.
-  cbn [exec_all] in *. destruct (exec track h s1 o) as [s2|e2] eqn:E2; [|destruct e2; discriminate].
+  cbn [exec_all] in *. destruct (exec true track h s1 o) as [s2|e2] eqn:E2; [|destruct e2; discriminate].
   assert (D2 : good s2 /\ deadf a (glk s2)).
   { destruct L as [->|(new & code & ->)].
     - destruct (destroy_marks track h a s1 s2 G1 Aa Hh E2) as (G2 & (A & _ & B & _) & _).
@@ -300,7 +300,7 @@ Proof.
     - destruct (migrate_marks track h a new code s1 s2 G1 Wo Hh E2) as (G2 & (A & _ & B & _)).
       split; [exact G2|apply deadf_of; [apply good_sorted; exact G2|exact A|exact B]]. }
   destruct D2 as [G2 D2].
-  destruct (exec_all track h s2 post) as [s3|e3] eqn:E3; [|destruct e3; discriminate].
+  destruct (exec_all true track h s2 post) as [s3|e3] eqn:E3; [|destruct e3; discriminate].
   apply existsb_false_forallb in U.
   destruct (exec_all_inv (deadf a) (keeps a) (exec_dead' a Aa) track h post s2 s3 G2 Wpost U D2 E3) as [G3 D3].
   cbn [fst]. split; [apply good_commit; exact G3|].
